@@ -413,10 +413,14 @@ func (e *Explorer) advance(x *Exec) bool {
 	// drop points that were not reached in the last run (cannot happen with a
 	// deterministic body, but a shorter run is legal after an advance)
 	x.stack = x.stack[:max(x.pos, x.fixed)]
+	cnt := devCount(x.stack)
 	for i := len(x.stack) - 1; i >= x.fixed; i-- {
 		p := &x.stack[i]
+		if p.dev && p.c != 0 {
+			cnt-- // cnt == devCount(x.stack[:i])
+		}
 		if p.c+1 < p.n {
-			if p.dev && p.c == 0 && devCount(x.stack[:i]) >= x.devBound {
+			if p.dev && p.c == 0 && cnt >= x.devBound {
 				x.stack = x.stack[:i]
 				continue
 			}
